@@ -35,6 +35,7 @@ type Config struct {
 	MaxFault int     `json:"max_fault"` // max fault positions per shape (0 = all)
 	Child    int     `json:"child"`     // sweep: every n-th position also probes from a child process (0 = never)
 	Probe    *ProbeCfg `json:"probe,omitempty"`
+	Program  *Program  `json:"program,omitempty"` // replay: the program to run sequentially
 }
 
 func main() {
@@ -56,6 +57,8 @@ func main() {
 		runSeq(cfg)
 	case "fault":
 		runFault(cfg)
+	case "replay":
+		runReplay(cfg)
 	case "sweep":
 		runSweep(cfg)
 	case "probe":
@@ -77,13 +80,16 @@ func runSeq(cfg Config) {
 		folder := filepath.Join(cfg.Data, fmt.Sprintf("p%d", i))
 		env := sopenv.New(folder, decor.NewHub())
 		env.Hub.Record = false
-		r := &Runner{Env: env, Rec: &Recorder{}, MaxTime: 2 * time.Minute}
+		r := &Runner{Env: env, Rec: &Recorder{}, MaxTime: time.Duration(envInt("VERIF_MAXTIME_MS", 120000)) * time.Millisecond}
 		for ti, spec := range p.Txns {
 			if _, err := r.RunTxn(ctx, fmt.Sprintf("t%d", ti+1), &p, spec, nil); err != nil {
 				r.Rec.Add(Ev{Ev: "HarnessError", Note: errs(err)})
 				break
 			}
 			r.Observe(ctx, &p)
+			if cfg.Child > 0 && (ti == len(p.Txns)-1 || (i+ti)%cfg.Child == 0) {
+				childObserve(r, folder, fmt.Sprintf("c%d", ti+1), p.Stores)
+			}
 		}
 		tf.Write(fmt.Sprintf("p%d", i), r.Rec.Take(), map[string]any{"program": p, "folder": folder})
 		if os.Getenv("VERIF_KEEP_DATA") == "" {
@@ -92,3 +98,25 @@ func runSeq(cfg Config) {
 	}
 }
 
+
+// runReplay runs one given program sequentially (used to reproduce a rejected trace).
+func runReplay(cfg Config) {
+	ctx := context.Background()
+	tf := NewTraceFile(cfg.Out)
+	defer tf.Close()
+	p := *cfg.Program
+	folder := filepath.Join(cfg.Data, "replay")
+	os.RemoveAll(folder)
+	env := sopenv.New(folder, decor.NewHub())
+	env.Hub.Record = false
+	r := &Runner{Env: env, Rec: &Recorder{}, MaxTime: 2 * time.Minute}
+	for ti, spec := range p.Txns {
+		if _, err := r.RunTxn(ctx, fmt.Sprintf("t%d", ti+1), &p, spec, nil); err != nil {
+			r.Rec.Add(Ev{Ev: "HarnessError", Note: errs(err)})
+			break
+		}
+		r.Observe(ctx, &p)
+	}
+	tf.Write("replay", r.Rec.Take(), map[string]any{"program": p})
+	os.RemoveAll(folder)
+}
